@@ -28,6 +28,121 @@ def _fa():
     return "fa: counts ok, %d automata x %d words: formulations agree" % (checked, len(words))
 
 
+def _cfg():
+    from .gen import cfg as G
+    from .refs import cfg as RC
+    assert sum(1 for _ in G.cfg_cases(2, 2, 2, 0, 3)) == G.cfg_count(2, 2, 2, 0, 3) == 12384
+    n = 0
+    for case in G.cfg_cases(2, 2, 2, 0, 3):
+        if not G.is_rep(case):
+            continue
+        r = RC.from_case(case)
+        a = r.lang_upto(4)
+        b = r.lang_upto_b(4)
+        assert a == b, (case, sorted(a ^ b)[:3])
+        assert r.is_finite() == r.is_finite_b(), case
+        assert r.is_empty() == (not r.lang_upto(6)), case
+        assert (r.start in r.nullable()) == (() in a), case
+        n += 1
+    return "cfg: counts ok, %d grammars: fixpoint == leftmost-derivation BFS on words <= 4, finiteness formulations agree" % n
+
+
+def _pda():
+    from .gen import pda as G
+    from . import observe as O
+    from .refs import nfa as RN
+    words = [tuple(w) for w in RN.all_words(["a", "b"], 3)]
+    n = cut = 0
+    for k, case in enumerate(G.pda_cases(2, 2, 2, 0, 2)):
+        if k % 23:
+            continue
+        r = O.ref_pda_from_case(case)
+        E, F = r.lang_empty_stack(3), r.lang_final_state(3)
+        for w in words:
+            for mode, L in (("empty", E), ("final", F)):
+                acc, c = r.accepts_bfs(w, mode, depth=7)
+                if acc:
+                    assert w in L, (case, w, mode)
+                elif not c:
+                    assert w not in L, (case, w, mode)
+                else:
+                    cut += 1
+        n += 1
+    return "pda: %d PDAs x %d words x 2 modes: summary fixpoint agrees with configuration BFS (%d inconclusive cuts)" % (n, len(words), cut)
+
+
+def _ig():
+    from .gen import ig as G
+    from .refs import ig as RI
+    n = 0
+    for case in G.ig_cases(0, 3):
+        if not G.is_rep(case):
+            continue
+        g = RI.IG(G.ref_rules(case))
+        a = g.is_empty()
+        b = g.is_nonempty_bounded(4)
+        assert not (a and b), case
+        assert a != b, ("depth 4 insufficient or fixpoint wrong", case)
+        n += 1
+    return "ig: %d grammars: stack-profile fixpoint agrees with explicit derivations (stack depth <= 4)" % n
+
+
+def _fst():
+    from .gen import fst as G
+    from . import observe as O
+    from .refs import nfa as RN
+    words = [tuple(w) for w in RN.all_words(["a", "b"], 3)]
+    n = 0
+    for k, case in enumerate(G.fst_cases(2, 0, 2)):
+        if k % 7 or not G.is_rep(case):
+            continue
+        r = O.ref_fst_from_case(case)
+        if r.has_writing_eps_cycle():
+            continue
+        for w in words:
+            a = r.relation(w)
+            b, cut = r.relation_b(w, 8)
+            assert b <= a and (cut or a == b), (case, w)
+        n += 1
+    return "fst: %d transducers x %d inputs: BFS relation agrees with path enumeration" % (n, len(words))
+
+
+def _ll1():
+    from .gen import cfg as G
+    from .refs import cfg as RC
+    from .refs import ll1 as L1
+    from .props.c14 import no_useless
+    n = 0
+    for case in G.cfg_cases(2, 2, 2, 0, 3):
+        if not G.is_rep(case):
+            continue
+        r = RC.from_case(case)
+        if not no_useless(r):
+            continue
+        pa, pb = L1.predict_sets(r), L1.predict_sets_b(r, 7)
+        for k in pa:
+            assert pb[k] <= pa[k], (case, k, pa[k], pb[k])      # bounded brute force is a lower bound
+        n += 1
+    return "ll1: %d grammars: brute-force predict sets are contained in the textbook ones" % n
+
+
+def _regex():
+    from .gen import regex as GR
+    from .refs import regex as RX
+    from .refs import nfa as RN
+    n = 0
+    for s in range(1, 6):
+        for ast in GR.asts(s):
+            nfa = RX.to_nfa(ast)
+            syms = sorted(RX.symbols(ast))
+            assert nfa.words_upto(3, syms) == RX.words_upto(ast, 3), ast
+            for c, a, red in GR.RENDERINGS[:4]:
+                back = RX.parse(GR.render(ast, c, a, red))
+                assert RN.distinguish(RX.to_nfa(back), nfa) is None, (ast, c, a, red)
+            n += 1
+    return "regex: %d ASTs: Thompson NFA == denotational semantics on words <= 3; renderings re-parse to the same language" % n
+
+
 def _ownership():
     """Same battery under a fixed salt and PYTHONHASHSEED 0,1,2 must give
     identical observation digests (the hook owns set order)."""
@@ -47,7 +162,7 @@ def _ownership():
 def main():
     t0 = time.time()
     try:
-        for f in (_fa, _ownership):
+        for f in (_fa, _cfg, _pda, _ig, _fst, _ll1, _regex, _ownership):
             print("selftest", f())
     except AssertionError as e:
         print("HARNESS-ERROR selftest failed:", repr(e)[:2000])
